@@ -60,7 +60,8 @@ RULE = (
     "duplicating proxy, partition/loss/pause windows): class 'clocks' = 2-5 nodes x <=40 scripted local/send events "
     "(+forwarding chains) with Lamport/vector/HLC stamps and generated clock skew/drift; class 'crdt/*' = 2-5 replicas "
     "of one CRDT type with generated updates and state shipments (dict round trip / copy / live / self-merge / chains) "
-    "followed by an all-to-all sync; class 'store/*' = 2-5 CRDTStore gossip entities with Write events. "
+    "followed by an all-to-all sync; class 'store/*' = 2-5 CRDTStore gossip entities with Write events (half of them "
+    "'settle' runs that continue 30 gossip rounds after the last write, 60% of those with symmetric value-tying workloads). "
     "non-trivial = (clocks) >=1 message received and >=1 concurrent event pair; (crdt/store) >=2 replicas updated and "
     ">=1 remote state merged; distinct = distinct engine delivery digests"
 )
@@ -85,7 +86,11 @@ ASSUMPTIONS = [
     "the timestamp of a receive event is the clock state right after receive(): LamportClock.time, a copy of the "
     "VectorClock, and for HLC either the anchored `_last` field or the next now() (both modes are generated)",
     "'observed by a remove' = the add is in the set of updates the removing replica had received when it removed",
-    "only safety is judged (same updates => equal and = specification); gossip liveness is reported as a probe only",
+    "safety (same updates => equal and = specification) is judged everywhere; convergence is judged only as bounded "
+    "liveness in 'settle' store runs: SETTLE_ROUNDS (30) gossip rounds after the last write/fault, one gossip interval "
+    "for all stores, delays bounded (no straggler profile), loss/partition windows over -> every store must hold "
+    "every update (the chance that two of <=5 stores never exchange directly in 30 push-pull rounds is < 1e-7)",
+    "LWW writes may repeat values (value domain a/b/c or one shared value); writes are identified by their timestamp",
     "CRDTStore LWW registers are written through get_or_create(key).set(value, ts) because the store's Write path "
     "cannot pass a timestamp (store Write + default LWW factory raises TypeError; outside the statement, see report)",
 ]
@@ -97,11 +102,14 @@ EXPECTED_PROBES = [
     "probe.orset_nonstring_elements_through_dict", "probe.store_learned_key_then_local_update",
     "probe.orset_stale_state_merged_after_remove", "probe.orset_add_wins_over_concurrent_remove",
     "probe.orset_tombstones_through_dict", "probe.store_orset_stale_state_merged_after_remove",
-    "probe.store_orset_add_wins_over_concurrent_remove",
+    "probe.store_orset_add_wins_over_concurrent_remove", "probe.lww_rewrite_same_value_newer_timestamp",
+    "probe.store_settle_run_converged", "probe.store_symmetric_value_tie",
     "fault.partition", "fault.loss", "fault.pause",
 ]
 SHRINK_SKIP = ("klass", "crdt", "variant", "n_nodes")
 SELFTEST_RUNS = 8
+
+SETTLE_ROUNDS = 30   # P(two of <=5 stores never exchange directly in 30 push-pull rounds) <= (9/16)^30 ~ 3e-8
 
 CRDT_CLASSES = {"gcounter": GCounter, "pncounter": PNCounter, "lww": LWWRegister, "orset": ORSet}
 
@@ -180,6 +188,7 @@ def gen_crdt(rng):
         sc["elem"] = rng.choice(["str", "str", "int", "mixed"])
     if kind == "lww":
         variant = rng.choice(["hlc", "manual", "manual"])
+        sc["lww_values"] = rng.choice(["unique", "repeat", "repeat"])
     sc["variant"] = variant
     ops = []
     used_ts = set()
@@ -200,7 +209,7 @@ def gen_crdt(rng):
         elif kind == "pncounter":
             ops.append({"t": t, "node": node, "kind": rng.choice(["inc", "dec"]), "n": rng.choice([1, 1, 2, 5, 100])})
         elif kind == "lww":
-            op = {"t": t, "node": node, "kind": "set"}
+            op = {"t": t, "node": node, "kind": "set", "val": rng.choice(["a", "b", "c"])}
             if variant == "manual":
                 p, lg = rng.randrange(0, 4), rng.randrange(0, 3)
                 if (node, p, lg) in used_ts:
@@ -234,28 +243,59 @@ def gen_store(rng):
     if kind == "orset":
         variant = rng.choice(["full", "full", "full", "add-only"])
     keys = [f"k{i}" for i in range(rng.randint(1, 3))]
+    settle = rng.random() < 0.5
+    net = _gen_net(rng)
+    while settle and "straggler" in net["profile"]:       # bounded delays for the convergence clause
+        net = _gen_net(rng)
+    iv = rng.choice([0.05, 0.1])
     sc = {"klass": "store", "crdt": kind, "variant": variant, "n_nodes": n, "seed": rng.getrandbits(48),
           "elem": rng.choice(["str", "int"]) if kind == "orset" else "str",
-          "net": _gen_net(rng), "clock_models": _gen_clock_models(rng, n),
-          "keys": keys, "precreate": rng.random() < 0.5,
-          "gossip": [rng.choice([0.05, 0.1, 0.25]) for _ in range(n)], "horizon": horizon}
+          "net": net, "clock_models": _gen_clock_models(rng, n),
+          "keys": keys, "precreate": rng.random() < 0.5, "settle": settle,
+          "lww_values": rng.choice(["unique", "repeat"]),
+          "gossip": [iv] * n if settle else [rng.choice([0.05, 0.1, 0.25]) for _ in range(n)], "horizon": horizon}
     sc["net"]["dup_p"] = min(sc["net"]["dup_p"], 0.15)
     faults = _gen_faults(rng, n, horizon * 0.6)
     sc["faults"] = [f for f in faults if f["kind"] != "pause"]
     ops = []
-    for t in _gen_times(rng, rng.randint(3, 30), horizon * 0.6):
-        node = rng.randrange(n)
-        op = {"t": round(t + 0.000123, 6), "node": node, "key": rng.choice(keys)}
-        if kind == "gcounter":
-            op.update(kind="inc", n=rng.choice([1, 2, 5]))
-        elif kind == "pncounter":
-            op.update(kind=rng.choice(["inc", "dec"]), n=rng.choice([1, 2, 5]))
-        elif kind == "lww":
-            op.update(kind="set")
-        else:
-            op.update(kind="add" if variant == "add-only" else rng.choice(["add", "add", "remove", "remove"]),
-                      x=rng.randrange(rng.choice([2, 3])))
-        ops.append(op)
+    sym = settle and rng.random() < 0.6
+    sc["workload"] = "symmetric" if sym else "random"
+    if sym:
+        # every store performs value-equivalent updates before the first gossip tick: the resolved values tie
+        # while the underlying CRDT states differ (own slots / own tags / own timestamps)
+        sc["lww_values"] = "repeat"
+        for key in keys:
+            v = rng.choice([1, 2, 5])
+            x = rng.randrange(3)
+            for node in range(n):
+                t = lambda: round(0.001 + rng.randrange(0, 60) * iv * 0.01 + 0.000123, 6)  # noqa: E731
+                if kind == "gcounter":
+                    ops.append({"t": t(), "node": node, "key": key, "kind": "inc", "n": v})
+                elif kind == "pncounter":
+                    d = rng.choice([0, 0, 1, 3])
+                    ops.append({"t": t(), "node": node, "key": key, "kind": "inc", "n": v + d})
+                    if d:
+                        ops.append({"t": t(), "node": node, "key": key, "kind": "dec", "n": d})
+                elif kind == "lww":
+                    ops.append({"t": t(), "node": node, "key": key, "kind": "set", "val": "same"})
+                else:
+                    ops.append({"t": t(), "node": node, "key": key, "kind": "add", "x": x})
+        ops.sort(key=lambda o: o["t"])
+        sc["faults"] = []
+    else:
+        for t in _gen_times(rng, rng.randint(3, 30), horizon * 0.6):
+            node = rng.randrange(n)
+            op = {"t": round(t + 0.000123, 6), "node": node, "key": rng.choice(keys)}
+            if kind == "gcounter":
+                op.update(kind="inc", n=rng.choice([1, 2, 5]))
+            elif kind == "pncounter":
+                op.update(kind=rng.choice(["inc", "dec"]), n=rng.choice([1, 2, 5]))
+            elif kind == "lww":
+                op.update(kind="set", val=rng.choice(["a", "b", "c"]))
+            else:
+                op.update(kind="add" if variant == "add-only" else rng.choice(["add", "add", "remove", "remove"]),
+                          x=rng.randrange(rng.choice([2, 3])))
+            ops.append(op)
     sc["ops"] = ops
     return sc
 
@@ -749,7 +789,7 @@ class ReplicaWorld:
         self.spec = Spec(self.kind)
         self.world = None
         self.probes = {"self_merge": 0, "chain": 0, "merges": 0, "dup": 0, "lww_tie": 0, "conc_add_rm": 0,
-                       "checks": 0, "stale_state_after_remove": 0, "add_wins": 0, "tombstone_round_trip": 0}
+                       "checks": 0, "lww_rewrite": 0, "stale_state_after_remove": 0, "add_wins": 0, "tombstone_round_trip": 0}
         self.vias = set()
         self.msg_seq = 0
         self.msg_seen = {}
@@ -848,7 +888,9 @@ class ReplicaWorld:
             else:
                 hts = self.hlc[node.idx].now()
             oid = sp.new_id()
-            val = f"v{oid}"
+            val = str(op["val"]) if self.sc.get("lww_values") == "repeat" and "val" in op else f"v{oid}"
+            if c.timestamp is not None and c.value == val and hts > c.timestamp:
+                self.probes["lww_rewrite"] += 1
             if any((o["ts"].physical_ns, o["ts"].logical) == (hts.physical_ns, hts.logical) and o["ts"].node_id != hts.node_id
                    for o in sp.ops.values()):
                 self.probes["lww_tie"] += 1
@@ -950,6 +992,7 @@ def run_crdt(sc):
         "probe.self_merge": int(pr["self_merge"] > 0), "probe.chain_forward": int(pr["chain"] > 0),
         "probe.dup_delivered": int(pr["dup"] > 0), "probe.lww_tie_physical_logical": int(pr["lww_tie"] > 0),
         "probe.orset_concurrent_add_remove": int(pr["conc_add_rm"] > 0),
+        "probe.lww_rewrite_same_value_newer_timestamp": int(pr["lww_rewrite"] > 0),
         "probe.orset_stale_state_merged_after_remove": int(pr["stale_state_after_remove"] > 0),
         "probe.orset_add_wins_over_concurrent_remove": int(pr["add_wins"] > 0),
         "probe.orset_tombstones_through_dict": int(pr["tombstone_round_trip"] > 0),
@@ -1044,6 +1087,7 @@ class StoreWorld:
         self.nclock = [NodeClock(_clock_model(models[i]) if i < len(models) else None) for i in range(n)]
         self.hlc = [HybridLogicalClock(f"s{i}", physical_clock=self.nclock[i]) for i in range(n)]
         self.checks = 0
+        self.lww_rewrite = 0
 
     def build(self):
         sc = self.sc
@@ -1061,7 +1105,20 @@ class StoreWorld:
             self.stores.append(RecStore(f"s{i}", network=holder, crdt_factory=lambda nid, cls=cls: cls(nid),
                                         gossip_interval=iv, sw=self, idx=i))
         self.driver = LwwDriver(self)
-        end = Instant.from_seconds(float(sc.get("horizon", 1.0)))
+        horizon = float(sc.get("horizon", 1.0))
+        if sc.get("settle"):
+            # bounded liveness: SETTLE_ROUNDS gossip rounds after the last write / fault, on bounded delays
+            p = (sc.get("net") or {}).get("profile") or {}
+            if "straggler" in p or len({float(g) for g in gossip[:n]} | {0.0}) > 2 or len(gossip) < n:
+                raise InvalidScenario("settle runs need bounded delays and one gossip interval")
+            bound = (p.get("base", 0.0) + p.get("jitter", 0.0)) * p.get("slow_mult", 1.0) \
+                + 7.0 * float((sc.get("net") or {}).get("dup_delay", 0.0)) + 1e-4
+            last = max([float(o.get("t", 0)) for o in sc.get("ops") or []] + [last_fault_end(list(sc.get("faults") or []))])
+            if any(f.get("end") is None for f in sc.get("faults") or []):
+                raise InvalidScenario("open-ended fault in a settle run")
+            horizon = last + SETTLE_ROUNDS * float(gossip[0]) + 6.0 * bound
+        self.horizon = horizon
+        end = Instant.from_seconds(horizon)
         w = World(sc, self.stores, end_time=end)
         holder.net = w.net
         self.world = w
@@ -1135,7 +1192,10 @@ class StoreWorld:
         k = op["key"]
         sp = self.specs[k]
         hts = self.hlc[i].now()
-        val = f"v{k}.{sp.new_id()}"
+        val = str(op["val"]) if self.sc.get("lww_values") == "repeat" and "val" in op else f"v{k}.{sp.new_id()}"
+        cur = s.crdts.get(k)
+        if cur is not None and cur.timestamp is not None and cur.value == val and hts > cur.timestamp:
+            self.lww_rewrite += 1
         s.get_or_create(k).set(val, hts)
         s.seen[k] = s.seen.get(k, 0) | 1 << sp.add_op({"kind": "set", "val": val, "ts": hts})
         self.updated.add(s.name)
@@ -1203,11 +1263,31 @@ def run_store(sc):
             sig, msg = v.sig, v.msg
         converged = all(len({s.seen.get(k, 0) for s in sw.stores}) == 1 for k in sw.keys) and any(
             s.seen.get(k, 0) for s in sw.stores for k in sw.keys)
+        if sig is None and sc.get("settle") and not converged:
+            for k in sw.keys:
+                full = 0
+                for s in sw.stores:
+                    full |= s.seen.get(k, 0)
+                lag = [s for s in sw.stores if s.seen.get(k, 0) != full]
+                if not lag:
+                    continue
+                vals = [repr(s.crdts[k].value) if k in s.crdts else None for s in sw.stores]
+                tie = len(set(vals)) == 1
+                d = ("stores-with-equal-values-but-different-state-never-exchange" if tie
+                     else "updates-not-propagated-within-the-settle-rounds")
+                sig = f"C18/gossip-convergence/CRDTStore.{sw.cls.__name__}/{d}"
+                msg = (f"key {k}: {SETTLE_ROUNDS} gossip rounds after the last write/fault (bounded delays, no loss) "
+                       f"{[s.name for s in lag]} still miss updates other stores hold; values {vals}, specified value of "
+                       f"all updates {sw.specs[k].value(full)!r}")
+                break
     counters = {
         "probe.store_key_learned_by_gossip": int(any(s.learned for s in sw.stores)),
         "probe.store_converged_all": int(converged and len(sw.updated) >= 2),
         "store_merges": sw.merges, "store_checks": sw.checks, "budget_runs": int(status == "budget"),
         "store_gossip_msgs": sum(s.stats.gossip_sent for s in sw.stores),
+        "probe.store_settle_run_converged": int(bool(sc.get("settle")) and converged),
+        "probe.store_symmetric_value_tie": int(sc.get("workload") == "symmetric" and len(sw.updated) >= 2),
+        "probe.lww_rewrite_same_value_newer_timestamp": int(sw.lww_rewrite > 0),
         "probe.store_orset_stale_state_merged_after_remove": int(sw.pr["stale_state_after_remove"] > 0),
         "probe.store_orset_add_wins_over_concurrent_remove": int(sw.pr["add_wins"] > 0),
         "probe.store_learned_key_then_local_update": int(any(s.learned and s.name in sw.updated for s in sw.stores)),
@@ -1215,6 +1295,7 @@ def run_store(sc):
     }
     counters.update(w.fault_counters())
     klass = f"store/{sc['crdt']}/{sc.get('variant', 'default')}/{'precreated' if sc.get('precreate') else 'learned'}" + (
+        f"/settle-{sc.get('workload', 'random')}" if sc.get("settle") else "") + (
         "/int" if sc.get("elem") == "int" else "")
     state = repr((klass, sc["n_nodes"], len(sw.keys), converged, any(s.learned for s in sw.stores),
                   w.stats["dups"] > 0, min(sw.merges // 20, 5)))
